@@ -77,12 +77,36 @@ pub fn decode_all(
     pc: usize,
 ) -> impl Iterator<Item = Result<Instruction<'_>, DecodeError>> + '_ + Clone {
     let mut decoder = Decoder::new(bytecode, pc);
-    std::iter::from_fn(move || decoder.decode())
+    let mut failed = false;
+    std::iter::from_fn(move || {
+        // A failed decode does not advance the program counter, so the error
+        // ends the stream (otherwise it would be yielded forever).
+        if failed {
+            return None;
+        }
+        let result = decoder.decode()?;
+        failed = result.is_err();
+        Some(result)
+    })
 }
 
 #[cfg(test)]
 mod tests {
     use super::Opcode;
+
+    /// A truncated instruction used to make `decode_all` yield the same
+    /// error without end.
+    #[test]
+    fn decode_all_stops_after_truncated_instruction() {
+        // NPUSHB without a count; PUSHB[0] without its operand; NPUSHW
+        // with a count but missing operands
+        for bytecode in [&[0x40u8][..], &[0xB0], &[0x01, 0x41, 0x01, 0x00]] {
+            let results: Vec<_> = super::decode_all(bytecode, 0).take(16).collect();
+            assert!(results.len() <= bytecode.len());
+            assert!(results.last().unwrap().is_err());
+            assert!(results[..results.len() - 1].iter().all(|r| r.is_ok()));
+        }
+    }
 
     #[test]
     fn mixed_ops() {
